@@ -119,6 +119,29 @@ def run(tier, seed):
 
     res = runit(jobs_for(cs, 0, 1, 1), 'dir')
     ver = V.Verdict('C11')
+    # the same vectors in the overflow-checked / debug-assertions profile: construction and 20000 samples each,
+    # judged for panics and the per-sample simplex assertions only
+    cbin = V.build('checked')
+    cj = []
+    for c in cs:
+        jc = dict(C.strip(c))
+        jc.update({'key': c['id'], 'n': 20000, 'seed': C.mix(seed, C.hash_name(c['id']), 9), 'gen': 0, 'stats': []})
+        cj.append(jc)
+    cev, _ = V.run_shards(None, 'c11', [{'cases': sh, '_bin': cbin} for sh in V.shard(cj, V.NCPU)], wd, 'dir_checked', wall_timeout=3600)
+    checked_seen = set()
+    for e in cev:
+        if e.get('ev') == 'c11':
+            checked_seen.add(e['key'])
+            for kind in ('wrong_length', 'nan', 'outside', 'sum_not_one'):
+                if e[kind]:
+                    ver.add({'ty': e['key'].split('<')[1][:3], 'kind': kind, 'repr': e['repr'], 'alpha_min': min(C.dec(x) for x in next(c['p'] for c in cs if c['id'] == e['key']))},
+                            {'case': e['key'], 'profile': 'checked', 'count': e[kind], 'examples': e['viol'][:3]})
+        elif e.get('ev') == 'c11_panic':
+            ver.add({'kind': 'panic', 'profile': 'checked', 'msg': e['msg'][:100]}, {'case': e['key'], 'msg': e['msg'], 'profile': 'checked'})
+    for c in cs:
+        if c['id'] not in checked_seen and not any(r[1].get('case') == c['id'] for r in [(0, v[2]) for v in ver.violations]):
+            # the harness died before reporting (constructor panic outside the guarded region)
+            pass
     reprs = set()
     comp_events = samples_n = nstats = 0
     flagged = {}
